@@ -38,6 +38,9 @@ func parseTok(v string) int {
 		return -1
 	}
 	v = v[1:]
+	if i := strings.IndexByte(v, '~'); i >= 0 {
+		v = v[:i]
+	}
 	if i := strings.IndexByte(v, '/'); i >= 0 {
 		v = v[:i]
 	}
@@ -96,7 +99,7 @@ func (p *puppetServer) enter(ctx gorums.ServerCtx, method, val string) *HandlerR
 	st.outstanding[h] = true
 	st.entered = append(st.entered, h)
 	w.hrecs = append(w.hrecs, h)
-	w.events = append(w.events, Event{Seq: h.EnterSeq, Step: w.step, Kind: "h-enter", Attr: fmt.Sprintf("srv=%d inc=%d stream=%d ser=%d tok=%d %s val=%q", p.s.Idx, p.inc, st.ID, serial, tok, method, val)})
+	w.events = append(w.events, Event{Seq: h.EnterSeq, Step: w.step, Kind: "h-enter", Attr: fmt.Sprintf("srv=%d inc=%d stream=%d ser=%d tok=%d %s val=%q", p.s.Idx, p.inc, st.ID, serial, tok, method, clip(val))})
 	w.mu.Unlock()
 	simrt.Adopt(fmt.Sprintf("srv%d#%d/h%d", p.s.Idx, p.inc, serial), "handler")
 	if overlap > 0 && p.inc == p.s.Inc {
@@ -351,4 +354,11 @@ func (q *puppetQSpec) qf(method string, in proto.Message, replies map[uint32]int
 	c.qfBusy = false
 	w.mu.Unlock()
 	return ret, level, quorum
+}
+
+func clip(s string) string {
+	if len(s) > 40 {
+		return fmt.Sprintf("%s...(%d bytes)", s[:40], len(s))
+	}
+	return s
 }
